@@ -114,6 +114,7 @@ type Explorer struct {
 
 	census *Census
 	pinned map[string]bool
+	valPin map[string]bool // register name -> assumed truth
 	regBlock map[string]*ssa.BasicBlock
 	// Debug, when non-nil, collects the distinct state hashes per block.
 	Debug map[int]map[string]bool
@@ -122,6 +123,19 @@ type Explorer struct {
 // KeyAtEntry renders v structurally with an empty path state. Use it to name
 // the conditions a rule assumes.
 func (x *Explorer) KeyAtEntry(v ssa.Value) string {
+	x.init()
+	if in, ok := v.(ssa.Instruction); ok && in.Parent() == x.Fn {
+		// value pin: "whenever this instruction is evaluated it yields the
+		// assumed truth"; the fact is recorded under the key the value has
+		// at that moment (memory-dependent keys differ from the entry form).
+		return "@" + v.Name()
+	}
+	return x.render(v, newState(), 0)
+}
+
+// StructKeyAtEntry renders v structurally with an empty path state (for
+// comparing two expressions).
+func (x *Explorer) StructKeyAtEntry(v ssa.Value) string {
 	x.init()
 	return x.render(v, newState(), 0)
 }
@@ -457,6 +471,31 @@ func (x *Explorer) stableBase(b ssa.Value) bool {
 	return false
 }
 
+// replaceTok replaces the delimited occurrences of tok in key by repl.
+func replaceTok(key, tok, repl string) string {
+	var sb strings.Builder
+	for i := 0; i < len(key); {
+		j := strings.Index(key[i:], tok)
+		if j < 0 {
+			sb.WriteString(key[i:])
+			break
+		}
+		j += i
+		end := j + len(tok)
+		okL := j == 0 || !isIdent(key[j-1])
+		okR := end >= len(key) || !isIdent(key[end])
+		if okL && okR {
+			sb.WriteString(key[i:j])
+			sb.WriteString(repl)
+			i = end
+		} else {
+			sb.WriteString(key[i : j+1])
+			i = j + 1
+		}
+	}
+	return sb.String()
+}
+
 // mentions reports whether key contains tok delimited by non-identifier chars.
 func mentions(key, tok string) bool {
 	for i := 0; ; {
@@ -688,16 +727,27 @@ func (x *Explorer) Run() []Hit {
 	st0 := newState()
 	st0.pin = map[string]bool{}
 	x.pinned = st0.pin
+	x.valPin = map[string]bool{}
 	for k, v := range x.Assume {
 		neg := false
 		for strings.HasPrefix(k, "!") {
 			neg = !neg
 			k = k[1:]
 		}
+		if strings.HasPrefix(k, "@") {
+			x.valPin[k[1:]] = v != neg
+			continue
+		}
 		st0.pin[k] = v != neg
 	}
 	var work []workItem
 	if x.From != nil {
+		// a value pin on the start instruction itself
+		if v, ok := x.From.(ssa.Value); ok {
+			if want, pinned := x.valPin[v.Name()]; pinned {
+				st0.Facts[v.Name()] = want
+			}
+		}
 		b := x.From.Block()
 		work = append(work, workItem{block: b, start: InstrIndex(x.From) + 1, st: st0, trace: []int{b.Index}})
 	} else {
@@ -781,6 +831,23 @@ func (x *Explorer) Run() []Hit {
 					}
 				}
 				x.define(in, st)
+				if v, ok := in.(ssa.Value); ok && len(x.valPin) > 0 {
+					if want, pinned := x.valPin[v.Name()]; pinned {
+						k := x.key(v, st)
+						if got, known := truthOfKey(k, st); known {
+							if got != want {
+								stopped = true // contradiction: infeasible path
+							}
+						} else {
+							neg := false
+							for strings.HasPrefix(k, "!") {
+								neg = !neg
+								k = k[1:]
+							}
+							st.Facts[k] = want != neg
+						}
+					}
+				}
 			}
 			if stopped {
 				break
@@ -817,9 +884,10 @@ func (x *Explorer) allocByName(name string) *ssa.Alloc {
 func (x *Explorer) enterBlock(b, pred *ssa.BasicBlock, st *State) {
 	// 1. phi transfer, computed from the incoming state
 	type upd struct {
-		name string
-		key  string
-		ok   bool
+		name  string
+		key   string
+		ok    bool
+		facts map[string]bool
 	}
 	var upds []upd
 	if pred != nil {
@@ -836,10 +904,29 @@ func (x *Explorer) enterBlock(b, pred *ssa.BasicBlock, st *State) {
 				break
 			}
 			u := upd{name: phi.Name()}
-			if pi >= 0 && !isNumeric(phi.Type()) {
+			if pi >= 0 && (!isNumeric(phi.Type()) || !InCycle(b)) {
 				k := x.key(phi.Edges[pi], st)
 				if !mentions(k, phi.Name()) && len(k) <= maxKeyLen {
 					u.key, u.ok = k, true
+					if len(regsOf(k)) > 0 {
+						// the incoming value mentions registers that may
+						// not dominate the blocks after the join: transfer
+						// what is known about it to the phi's own name.
+						u.facts = map[string]bool{}
+						for _, src := range []map[string]bool{st.pin, st.Facts} {
+							for fk, fv := range src {
+								if mentions(fk, k) {
+									u.facts[replaceTok(fk, k, phi.Name())] = fv
+								}
+							}
+						}
+						if nonNilKey(k, st) {
+							u.facts[eqKey(phi.Name(), "nil")] = false
+						}
+						if tv, known := truthOfKey(k, st); known {
+							u.facts[phi.Name()] = tv
+						}
+					}
 				}
 			}
 			upds = append(upds, u)
@@ -895,20 +982,16 @@ func (x *Explorer) enterBlock(b, pred *ssa.BasicBlock, st *State) {
 		}
 	}
 	for _, u := range upds {
-		if u.ok {
-			// the incoming key may itself mention a register of this block
-			// (loop-carried); then it is stale.
-			stale := false
-			for d := range defs {
-				if mentions(u.key, d) {
-					stale = true
-					break
-				}
-			}
-			if !stale {
-				st.alias[u.name] = u.key
-			}
+		if !u.ok {
+			continue
 		}
+		if u.facts != nil {
+			for fk, fv := range u.facts {
+				st.Facts[fk] = fv
+			}
+			continue
+		}
+		st.alias[u.name] = u.key
 	}
 }
 
